@@ -54,7 +54,7 @@ func VerifC10Session() {
 	ts := make([]int64, k)
 	keyOf := make([]int, k)
 	late := make([]bool, k)
-	names := []string{"a", "b"}
+	names := []string{"a", "b", "c"}
 	maxTs := int64(0)
 	for i := 0; i < k; i++ {
 		ts[i] = verifTs("ts", base, span)
